@@ -459,7 +459,7 @@ impl Monitor for C08 {
     }
     fn streams(&self, tier: Tier, budget: f64) -> Vec<Stream> {
         let n = match tier {
-            Tier::Quick => 3_000,
+            Tier::Quick => 8_000,
             Tier::Thorough => 300_000,
         };
         vec![Stream::new("long-histories", 4), Stream::new("short-histories", scaled(n, budget))]
